@@ -93,6 +93,9 @@ def _order_ok(t_order, f_order, both_aromatic):
     return False
 
 
+LAST_PAIR = {}      # id(resolver) -> (resolver, coarse graph, fine graph) returned by its latest resolve() call
+
+
 def check(pre, self, result):
     STATS['resolve_calls'] += 1
     try:
@@ -100,6 +103,8 @@ def check(pre, self, result):
     except Exception:
         rec('C02', 'c02.return_shape', f'resolve() returned {type(result).__name__}')
         return True
+    LAST_PAIR.clear()
+    LAST_PAIR[id(self)] = (self, cg, aa)
     try:
         _check(pre, cg, aa)
     except Exception as err:
@@ -349,6 +354,11 @@ def _check(pre, cg, aa):
                 names.append(an)
             if len(names) != len(set(names)):
                 rec('C12', 'c12.atomname_not_unique', f'{tag} coarse node {k}: atom names {names}')
+            elif len(names) == len(gr) and all(len(fragid_of.get(n, ())) == 1 for n in gr.nodes):
+                # 'running index': along the node's own block (key order) the index counts up by one
+                idxs = [int(re.search(r'\d+$', str(gr.nodes[n]['atomname'])).group()) for n in sorted(gr.nodes)]
+                if any(b - a != 1 for a, b in zip(idxs, idxs[1:])):
+                    rec('C12', 'c12.atomname_index_not_running', f'{tag} coarse node {k}: atoms {sorted(gr.nodes)} carry the name indices {idxs}')
         for n, d in aa.nodes(data=True):
             if len(fragid_of[n]) == 1:
                 an = d.get('atomname')
@@ -408,5 +418,26 @@ def install():
         return icontract.snapshot(pre_state, name='pre')(
             icontract.ensure(post_state_holds, error=PostBroken)(orig))
     res = hooks.wrap_attr('cgsmiles.resolve', 'MoleculeResolver.resolve', factory)
+
+    def all_factory(orig):
+        def resolve_all(self, *a, **kw):
+            out = orig(self, *a, **kw)
+            try:
+                last = LAST_PAIR.get(id(self))
+                if last is not None and last[0] is self:
+                    STATS['resolve_all_calls'] += 1
+                    cg, aa = out
+                    if not (cg is last[1] and aa is last[2]):
+                        from . import util
+                        if util.canonical_dump(cg) != util.canonical_dump(last[1]) or util.canonical_dump(aa) != util.canonical_dump(last[2]):
+                            for prop in ('C02', 'C06'):
+                                rec(prop, prop.lower() + '.resolve_all_pair_is_not_the_last_step',
+                                    f'resolve_all() returned a pair (coarse {len(cg)} nodes, fine {len(aa)} nodes) that is not the pair of the last '
+                                    f'resolution step (coarse {len(last[1])} nodes, fine {len(last[2])} nodes), so the coarse graph does not partition the fine one')
+            except Exception:
+                STATS['contract_error'] += 1
+            return out
+        return resolve_all
+    hooks.wrap_attr('cgsmiles.resolve', 'MoleculeResolver.resolve_all', all_factory)
     _installed = res is not None
     return _installed
